@@ -33,7 +33,8 @@ type packCtx struct {
 	Pack   *ssa.Function
 	Reach  map[*ssa.Function]bool
 	ReachL []*ssa.Function
-	Walks  []*walkInfo
+	Walks  []*walkInfo // the walk callbacks; WriteHeaders = the calls in the callback through which a header is written (WriteHeader itself or a private helper that writes it)
+	Hosts  []*walkInfo // the functions that contain the WriteHeader calls themselves (== Walks unless the write was moved into a helper)
 }
 
 func isExcludesResult(t types.Type) bool {
@@ -118,16 +119,8 @@ func getPackCtx(c *Checker, rule string) *packCtx {
 	}
 	pc.Reach = p.reach(pc.Pack)
 	pc.ReachL = sortedFuncs(pc.Reach)
-	for _, fn := range pc.ReachL {
-		var whs []*ssa.Call
-		for _, ci := range callsTo(fn, func(o *types.Func) bool { return isMethod(o, "archive/tar", "Writer", "WriteHeader") }) {
-			if cl, ok := ci.(*ssa.Call); ok {
-				whs = append(whs, cl)
-			}
-		}
-		if len(whs) == 0 {
-			continue
-		}
+	isWH := func(o *types.Func) bool { return isMethod(o, "archive/tar", "Writer", "WriteHeader") }
+	mk := func(fn *ssa.Function, whs []*ssa.Call) *walkInfo {
 		w := &walkInfo{Fn: fn, Maker: fn.Parent(), WriteHeaders: whs}
 		for _, prm := range fn.Params {
 			if b, ok := prm.Type().Underlying().(*types.Basic); ok && b.Kind() == types.String && w.PathParam == nil {
@@ -138,7 +131,94 @@ func getPackCtx(c *Checker, rule string) *packCtx {
 			}
 		}
 		w.Excl = findExclCalls(fn)
-		pc.Walks = append(pc.Walks, w)
+		return w
+	}
+	// the walk callbacks, by role: (…, string, fs.FileInfo|fs.DirEntry, error) error, reachable from Pack,
+	// that write tar headers themselves or through private helpers
+	isCallback := func(fn *ssa.Function) bool {
+		res := fn.Signature.Results()
+		if res.Len() != 1 || !isErrorType(res.At(0).Type()) {
+			return false
+		}
+		ps := fn.Params
+		for i := 0; i+2 < len(ps); i++ {
+			if !isStringType(ps[i].Type()) || !isErrorType(ps[i+2].Type()) {
+				continue
+			}
+			if n, ok := types.Unalias(ps[i+1].Type()).(*types.Named); ok && (n.Obj().Name() == "FileInfo" || n.Obj().Name() == "DirEntry") {
+				return true
+			}
+		}
+		return false
+	}
+	hosts := map[*ssa.Function][]*ssa.Call{}
+	for _, fn := range pc.ReachL {
+		if !p.InModule(fn) || !isCallback(fn) {
+			continue
+		}
+		var emits []*ssa.Call
+		seen := map[*ssa.Call]bool{}
+		for _, v := range p.vcalls(fn, 3) {
+			if !isWH(calleeObj(v.Inner)) {
+				continue
+			}
+			in, ok1 := v.Inner.(*ssa.Call)
+			site, ok2 := v.Site.(*ssa.Call)
+			if !ok1 || !ok2 {
+				continue
+			}
+			if !seen[site] {
+				seen[site] = true
+				emits = append(emits, site)
+			}
+			dup := false
+			for _, x := range hosts[in.Parent()] {
+				if x == in {
+					dup = true
+				}
+			}
+			if !dup {
+				hosts[in.Parent()] = append(hosts[in.Parent()], in)
+			}
+		}
+		if len(emits) == 0 {
+			continue
+		}
+		pc.Walks = append(pc.Walks, mk(fn, emits))
+	}
+	if len(pc.Walks) == 0 {
+		// no callback recognised by its signature: fall back to the functions that write headers
+		for _, fn := range pc.ReachL {
+			var whs []*ssa.Call
+			for _, ci := range callsTo(fn, isWH) {
+				if cl, ok := ci.(*ssa.Call); ok {
+					whs = append(whs, cl)
+				}
+			}
+			if len(whs) > 0 {
+				pc.Walks = append(pc.Walks, mk(fn, whs))
+				hosts[fn] = whs
+			}
+		}
+	}
+	for _, fn := range sortedFuncs(func() map[*ssa.Function]bool {
+		m := map[*ssa.Function]bool{}
+		for f := range hosts {
+			m[f] = true
+		}
+		return m
+	}()) {
+		var found *walkInfo
+		for _, w := range pc.Walks {
+			if w.Fn == fn {
+				found = w
+			}
+		}
+		if found != nil && len(found.WriteHeaders) == len(hosts[fn]) {
+			pc.Hosts = append(pc.Hosts, found)
+		} else {
+			pc.Hosts = append(pc.Hosts, mk(fn, hosts[fn]))
+		}
 	}
 	if len(pc.Walks) == 0 {
 		c.anchorMissing(rule, "a function reachable from Pack that calls (*tar.Writer).WriteHeader")
@@ -228,7 +308,14 @@ func (pc *packCtx) omitReason(p *Prog, r *ssa.Return) string {
 }
 
 // headerAlloc: the *tar.Header passed to a WriteHeader call.
-func headerAlloc(wh *ssa.Call) ssa.Value { return canon(wh.Call.Args[len(wh.Call.Args)-1]) }
+func headerAlloc(wh *ssa.Call) ssa.Value {
+	for _, a := range wh.Call.Args {
+		if isHeaderType(a.Type()) {
+			return canon(a)
+		}
+	}
+	return canon(wh.Call.Args[len(wh.Call.Args)-1])
+}
 
 // headerFieldStores: stores into field `name` of header h in fn.
 func headerFieldStores(fn *ssa.Function, h ssa.Value, name string) []*ssa.Store {
